@@ -743,3 +743,111 @@ Proof.
   split. { split; [vm_compute; reflexivity|]. intros k Hk. do 32 (destruct k as [|k]; [vm_compute; reflexivity|]). lia. }
   split; vm_compute; reflexivity.
 Qed.
+
+(* ================================================================================================================== *)
+(* THE LINE COMMANDS ON THE TRANSLATED C TEXT (coq/TrExCmds.v, whitelist tools/c2clite.d/88_excmds.list): ec_delete, ... of /repo/ex.c as
+   CLite terms (GenCFuncs.cf_ec_delete ...) do what the model's commands of this file do, for every memory and every oracle.
+
+   The setting.  `CLiteExt.callx ext cprog` is the translated program in which a call to an untranslated function (index X_..) is
+   answered by the oracle ext.  The commands call ex_region (translated; C06_tr_ex_region_model), lbuf_len / ex_lbuf (translated) and
+   the oracles lbuf_cp, reg_put, lbuf_edit, ex_print, sprintf.  Each theorem says: (1) ex_region is called on the command's frame and
+   returns what the model's ex_region says; (2) when the model's command returns 1 the C command returns 1 from that memory, no
+   oracle having been called; (3) when the model's command returns 0: IF the oracles answer the calls
+   f [arguments of the model] on the memory the previous step left -- one hypothesis per call, chained by the memories, so the order
+   of the calls is fixed -- THEN the command returns 0 and has stored the model's current line in xrow.  The hypotheses about the
+   memories the oracles return are what the C text reads back from them (bufs[0].lb still points to the struct lbuf, its ln_n is
+   the length of the model's buffer after the model's edit, the command's own locals beg / end are untouched).
+   TrExCmds.cmd_pre m st bs bl s gbufs lblk: the memory m holds the address string s (NUL-free, no search) in block bs, xrow st in
+   G_xrow, bufs[0].lb -> block bl, a struct lbuf whose ln_n is slen st and whose mark[] are the mark rows of st (C06_tr_cmd_pre).
+   TrExCmds.zero_linked ext: ex.c's calls of ex_zero go to the index X_ex_zero (so that ec_glob's term keeps its form); the oracle
+   is the translated ex_zero there (C06_tr_ex_zero: it computes the model's ex_zero, fix 6c95ca8).
+   THE FRAME.  A command starts with `int beg, end;` -- two fresh one-cell blocks, indeterminate -- and passes their addresses to
+   ex_region, which executes `int end0 = *end` before it stores to *end (the value is used from the second address on only).  CLite
+   makes the use of an indeterminate value an error, so the CALL of a command with an address other than "" and "%" is EUndef in
+   CLite (C06_tr_delete_runs, last line).  In C, `end` has SOME int value there.  TrExCmds.ec_delete_run ext fuel D loc cmd arg txt m ve
+   is the text of ec_delete behind the two allocations, run in the frame where `end` holds ve; C06_tr_ec_delete_entry: the call IS
+   ec_delete_run .. VUndef; the theorems are about ec_delete_run .. (VInt e0) for EVERY int e0, and the results do not depend on e0. *)
+From NV Require CLiteExt TrExCmds.
+
+Theorem C06_tr_cmd_pre : forall mm (st : st) bs bl s gbufs lblk, TrExCmds.cmd_pre mm st bs bl s gbufs lblk <->
+  (CLiteProps.str_at mm bs s /\ nonul s /\ ExAddrDefs.nosearch s /\ CLiteProps.cell_at mm GenCFuncs.G_xrow (xrow st) /\
+   nth_error mm GenCFuncs.G_bufs = Some gbufs /\ nth_error gbufs TrExAddr.BUFS_LB = Some (CLite.VPtr bl 0) /\
+   nth_error mm bl = Some lblk /\ nth_error lblk TrLbufBase.L_ln_n = Some (CLite.VInt (slen st)) /\
+   TrLbufMarks.marks_ints lblk /\ TrLbufMarks.marks_rep lblk (marks (lb st)) /\ nth_error mm GenCFuncs.G_lit_25_1 = Some GenCFuncs.gb_lit_25_1 /\
+   TrExAddr.int_ok (xrow st) /\ TrExAddr.int_ok (slen st) /\ 2 * Z.of_nat (S (length s)) <= 2147483647 /\
+   TrExAddr.region_fit (slen st) (TrExAddr.mark_of lblk) TrExAddr.search0 s (xrow st)).
+Proof. exact TrExCmds.cmd_pre_iff. Qed.
+Print Assumptions C06_tr_cmd_pre.
+
+(* ex_zero(loc, beg, end) = loc[0] && strcmp("%", loc) && !beg && !end: the model's ex_zero, for every NUL-free string (fix 6c95ca8) *)
+Theorem C06_tr_ex_zero : forall m bs s b e d fuel,
+  CLiteProps.str_at m bs s -> nonul s -> nth_error m GenCFuncs.G_lit_25_1 = Some GenCFuncs.gb_lit_25_1 ->
+  CLite.callf GenCFuncs.cprog fuel (S d) GenCFuncs.F_ex_zero [CLite.VPtr bs 0; CLite.VInt b; CLite.VInt e] m
+  = CLite.Ok (CLite.VInt (CLite.b2z (ex_zero s b e)), m).
+Proof. exact TrExCmds.tr_ex_zero. Qed.
+Print Assumptions C06_tr_ex_zero.
+
+Theorem C06_tr_ec_delete_entry : forall ext fuel D a0 a1 a2 a3 m,
+  CLiteExt.callx ext GenCFuncs.cprog fuel (S D) GenCFuncs.F_ec_delete [a0; a1; a2; a3] m = TrExCmds.ec_delete_run ext fuel D a0 a1 a2 a3 m CLite.VUndef.
+Proof. exact TrExCmds.ec_delete_entry. Qed.
+Print Assumptions C06_tr_ec_delete_entry.
+
+(* d.  M = the model's ec_delete on the state st; R = the model's ex_region (rejected, beg, end, state).  The calls, in order:
+   ex_region(loc, &beg, &end); [ex_zero(loc, beg, end); lbuf_len(xb)]; lbuf_cp(xb, beg, end) -> buf; reg_put(REG(arg), buf, 1);
+   free(buf); lbuf_edit(xb, NULL, beg, end); xrow = MAX(0, MIN(beg, lbuf_len(xb) - 1)) = the model's new current line (fix 9481b21). *)
+Theorem C06_tr_ec_delete : forall ext fuel rvalid rfind (st : st) m bs bl s gbufs lblk e0 d,
+  TrExCmds.cmd_pre m st bs bl s gbufs lblk -> GenCFuncs.G_xrow <> bs -> GenCFuncs.G_xrow <> bl ->
+  TrExCmds.zero_linked ext -> TrExAddr.int_ok e0 -> (2 * S (length s) <= fuel)%nat ->
+  forall vcmd ba arg vtxt, CLiteProps.str_at m ba arg -> nonul arg -> ba <> GenCFuncs.G_xrow ->
+  let M := ec_delete rvalid rfind s arg st in
+  let R := ex_region rvalid rfind s st in
+  let bb := length m in let be := S (length m) in let D := S (S (S (S d))) in
+  exists m1,
+    CLiteExt.callx ext GenCFuncs.cprog fuel D GenCFuncs.F_ex_region [CLite.VPtr bs 0; CLite.VPtr bb 0; CLite.VPtr be 0]
+      (TrExCmds.frame_mem m CLite.VUndef (CLite.VInt e0)) = CLite.Ok (CLite.VInt (CLite.b2z (fst (fst (fst R)))), m1) /\
+    (snd M <> 0 ->
+       TrExCmds.ec_delete_run ext fuel D (CLite.VPtr bs 0) vcmd (CLite.VPtr ba 0) vtxt m (CLite.VInt e0) = CLite.Ok (CLite.VInt (snd M), m1) /\
+       snd M = 1 /\ CLiteProps.cell_at m1 GenCFuncs.G_xrow (xrow (fst M)) /\ lb (fst M) = lb st) /\
+    (snd M = 0 -> forall pb m2 u m3 c blk u' m5 x5,
+       ext GenCFuncs.X_lbuf_cp [CLite.VPtr bl 0; CLite.VInt (snd (fst (fst R))); CLite.VInt (snd (fst R))] m1 = CLite.Ok (CLite.VPtr pb 0, m2) ->
+       ext GenCFuncs.X_reg_put [CLite.VInt (Z.of_N (REG arg)); CLite.VPtr pb 0; CLite.VInt 1] m2 = CLite.Ok (u, m3) ->
+       nth_error m3 pb = Some (c :: blk) ->
+       TrExCmds.keeps [GenCFuncs.G_bufs; bb; be] m1 (CLiteProps.upd m3 pb []) ->
+       ext GenCFuncs.X_lbuf_edit [CLite.VPtr bl 0; CLite.VInt 0; CLite.VInt (snd (fst (fst R))); CLite.VInt (snd (fst R))] (CLiteProps.upd m3 pb [])
+         = CLite.Ok (u', m5) ->
+       nth_error m5 bb = Some [CLite.VInt (snd (fst (fst R)))] -> TrExCmds.len_view m5 bl (slen (fst M)) -> CLiteProps.cell_at m5 GenCFuncs.G_xrow x5 ->
+       TrExCmds.ec_delete_run ext fuel D (CLite.VPtr bs 0) vcmd (CLite.VPtr ba 0) vtxt m (CLite.VInt e0)
+       = CLite.Ok (CLite.VInt 0, CLiteProps.upd m5 GenCFuncs.G_xrow [CLite.VInt (xrow (fst M))])).
+Proof. exact TrExCmds.tr_ec_delete. Qed.
+Print Assumptions C06_tr_ec_delete.
+
+(* the translated ec_delete RUNS, with a table oracle that logs every call as a block (tag :: arguments) appended to the memory (tags: 1
+   lbuf_cp, 2 reg_put, 3 lbuf_edit; TrExCmds.log_ext newlen cp: lbuf_cp returns a fresh string cp, lbuf_edit sets ln_n to newlen).
+   Five lines, current line 0, bl = the block of the struct lbuf.  `2,3d`: lbuf_cp(xb, 1, 3), reg_put(0, buf, 1), lbuf_edit(xb, NULL, 1, 3),
+   xrow = 1, result 0 -- whatever int `end` held (0 or 77); `%d`: lbuf_edit(xb, NULL, 0, 5), xrow = 0; `4,5d`: xrow = 2, the new last
+   line (fix 9481b21); `0d`: result 1, no call (fix 6c95ca8).  The call of the function: on `%d` the same run; on `2,3d` EUndef. *)
+Example C06_tr_delete_runs :
+  let bl := length GenCFuncs.cglobals in
+  let run e0 newlen cp addr :=
+    TrExCmds.show (TrExCmds.ec_delete_run (TrExCmds.log_ext newlen cp) 100 10 (CLite.VPtr (S bl) 0) (CLite.VPtr (S (S bl)) 0) (CLite.VPtr (S (S (S bl))) 0)
+                     (CLite.VInt 0) (TrExCmds.cmd_mem 5 0 addr [100] []) (CLite.VInt e0)) (bl + 6) in
+  run 0 3 [98; 10; 99; 10] [50; 44; 51]
+  = Some (CLite.VInt 0, Some [CLite.VInt 1],
+          [[CLite.VInt 1; CLite.VPtr bl 0; CLite.VInt 1; CLite.VInt 3]; [CLite.VInt 2; CLite.VInt 0; CLite.VPtr (bl + 10) 0; CLite.VInt 1];
+           [CLite.VInt 3; CLite.VPtr bl 0; CLite.VInt 0; CLite.VInt 1; CLite.VInt 3]]) /\
+  run 77 3 [98; 10; 99; 10] [50; 44; 51] = run 0 3 [98; 10; 99; 10] [50; 44; 51] /\
+  run 0 0 [97; 10] [37]
+  = Some (CLite.VInt 0, Some [CLite.VInt 0],
+          [[CLite.VInt 1; CLite.VPtr bl 0; CLite.VInt 0; CLite.VInt 5]; [CLite.VInt 2; CLite.VInt 0; CLite.VPtr (bl + 8) 0; CLite.VInt 1];
+           [CLite.VInt 3; CLite.VPtr bl 0; CLite.VInt 0; CLite.VInt 0; CLite.VInt 5]]) /\
+  run 0 3 [100; 10; 101; 10] [52; 44; 53]
+  = Some (CLite.VInt 0, Some [CLite.VInt 2],
+          [[CLite.VInt 1; CLite.VPtr bl 0; CLite.VInt 3; CLite.VInt 5]; [CLite.VInt 2; CLite.VInt 0; CLite.VPtr (bl + 10) 0; CLite.VInt 1];
+           [CLite.VInt 3; CLite.VPtr bl 0; CLite.VInt 0; CLite.VInt 3; CLite.VInt 5]]) /\
+  run 0 5 [] [48] = Some (CLite.VInt 1, Some [CLite.VInt 0], []) /\
+  TrExCmds.show (CLiteExt.callx (TrExCmds.log_ext 0 [97; 10]) GenCFuncs.cprog 100 11 GenCFuncs.F_ec_delete
+                   [CLite.VPtr (S bl) 0; CLite.VPtr (S (S bl)) 0; CLite.VPtr (S (S (S bl))) 0; CLite.VInt 0] (TrExCmds.cmd_mem 5 0 [37] [100] [])) (bl + 6)
+  = run 0 0 [97; 10] [37] /\
+  CLiteExt.callx (TrExCmds.log_ext 3 []) GenCFuncs.cprog 100 11 GenCFuncs.F_ec_delete
+    [CLite.VPtr (S bl) 0; CLite.VPtr (S (S bl)) 0; CLite.VPtr (S (S (S bl))) 0; CLite.VInt 0] (TrExCmds.cmd_mem 5 0 [50; 44; 51] [100] []) = CLite.Err CLite.EUndef.
+Proof. exact TrExCmds.run_delete_examples. Qed.
